@@ -287,6 +287,10 @@ func (ek *EAPOLKey) SerializeTo(b gopacket.SerializeBuffer, opts gopacket.Serial
 	binary.BigEndian.PutUint16(buf[3:5], ek.KeyLength)
 	binary.BigEndian.PutUint64(buf[5:13], ek.ReplayCounter)
 
+	// Nonce, IV and MIC shorter than their slots leave zero bytes
+	for i := 13; i < 93; i++ {
+		buf[i] = 0
+	}
 	copy(buf[13:45], ek.Nonce)
 	copy(buf[45:61], ek.IV)
 	binary.BigEndian.PutUint64(buf[61:69], ek.RSC)
